@@ -557,6 +557,7 @@ pub fn denote(env: &Env) -> Result<ExpectedTx, EvalErr> {
     // mint / burn
     let mut mint_redeemers: Vec<(Vec<u8>, PData)> = vec![];
     let mut net = VMap::new();
+    let (mut mint_side, mut burn_side) = (VMap::new(), VMap::new());
     for (is_burn, m) in tx.mints.iter().map(|m| (false, m)).chain(tx.burns.iter().map(|m| (true, m))) {
         let v = as_value(ev.eval(&m.amount, Ctx::Plain)?)?;
         if v.is_empty() {
@@ -587,6 +588,16 @@ pub fn denote(env: &Env) -> Result<ExpectedTx, EvalErr> {
             }
         }
         net = if is_burn { vadd(&net, &vneg(&v)) } else { vadd(&net, &v) };
+        if is_burn {
+            burn_side = vadd(&burn_side, &v);
+        } else {
+            mint_side = vadd(&mint_side, &v);
+        }
+    }
+    // the total of the mint blocks alone (or of the burn blocks alone) leaves the 64-bit field while the
+    // net amount fits: an intermediate overflow, where an error is an acceptable outcome (C02 judges it)
+    if mint_side.values().chain(burn_side.values()).any(|q| *q > BigInt::from(i64::MAX) || *q < BigInt::from(i64::MIN)) {
+        x.beyond_i64 = true;
     }
     for (class, q) in &net {
         if let Class::Token(p, n) = class {
